@@ -66,7 +66,7 @@ def seam_records(ck, tree, maxlen, chunks, randoms):
     return recs
 
 
-def binary_records(ck, tree, messages, nworkers=16):
+def binary_records(ck, tree, messages, nworkers=16, datacode=None):
     """Real qmail-remote -> scripted server; returns records in the seam format (c = 0)."""
     eps = [smtpsrv.Endpoint(i) for i in range(nworkers)]
     with open(os.path.join(tree.root, "control", "smtproutes"), "w") as f:
@@ -84,7 +84,10 @@ def binary_records(ck, tree, messages, nworkers=16):
                 i, m = q.get_nowait()
             except queue.Empty:
                 return
-            obs, out, rc = smtpsrv.run_remote(tree, ep, bytes(m), "s@sender.test", ["r@" + ep.host], {"rawdata": True})
+            script = {"rawdata": True}
+            if datacode:
+                script["data"] = {"code": datacode, "multi": False}
+            obs, out, rc = smtpsrv.run_remote(tree, ep, bytes(m), "s@sender.test", ["r@" + ep.host], script)
             first = out[:1].decode("latin1")
             if "raw" in obs:
                 raw = obs["raw"]
@@ -93,6 +96,8 @@ def binary_records(ck, tree, messages, nworkers=16):
                 # qmail-remote's own report decides whether it considers the payload sent
                 res = "ok" if b"\0K" in out or out.startswith(b"K") or b"\x00K" in out else \
                       ("refused" if b"\0D" in out or first == "D" else "temp")
+                if datacode:
+                    res = "nodata"
                 recs[i] = {"i": list(m), "c": 0, "o": list(raw), "r": res, "report": out.decode("latin1")[:200]}
             else:
                 recs[i] = {"i": list(m), "c": 0, "o": [], "r": "noconn:" + obs["phase_end"], "report": out.decode("latin1")[:200]}
@@ -216,6 +221,13 @@ def main():
         if len(noconn) > len(brecs) // 20:
             raise Infra("qmail-remote did not reach the scripted server in %d of %d runs: %s" % (len(noconn), len(brecs), noconn[0]))
         recs += [r for r in brecs if not r["r"].startswith("noconn")]
+        # the server refuses the DATA command: the message (its lines chosen to look like commands) must not be sent at all
+        cmdlike = [list(b"RSET\nMAIL FROM:<x@y>\nRCPT TO:<v@w>\nDATA\nsmuggled\n.\nQUIT\n"), list(b"QUIT\n"), [120, 10], [46, 10], []]
+        nd = []
+        for dc in (451, 421, 554, 452):
+            nd += [r for r in binary_records(ck, tree, cmdlike, datacode=dc) if not r["r"].startswith("noconn")]
+        recs += nd
+        ck.cov["transmissions_with_data_refused"] = len(nd)
         # one failing system call per run
         fmsgs = [list(b"Subject: f\n\n" + b"".join(b"line %04d of the body, with a dot line next\n.\n..x\n" % i for i in range(60))),
                  list(b"a\r\nb\n" * 700), [120] * 1023 + [10] + [46, 10] * 600]
